@@ -14,11 +14,13 @@ pub fn dump_node(h: &Handle, out: &mut String) {
         Open(Handle),
         Close,
     }
+    // (template contents are walked on the same explicit stack: a parse may nest templates as deeply as the input likes)
     let mut stack = vec![W::Open(h.clone())];
     while let Some(w) = stack.pop() {
         match w {
             W::Close => out.push(')'),
             W::Open(h) => {
+                let mut tmpl: Option<Handle> = None;
                 match &h.data {
                     NodeData::Document => out.push_str("(doc"),
                     NodeData::Doctype { name, public_id, system_id } => {
@@ -50,13 +52,7 @@ pub fn dump_node(h: &Handle, out: &mut String) {
                         }
                         if let Some(t) = template_contents.borrow().as_ref() {
                             out.push_str(" (tmpl");
-                            let mut inner = String::new();
-                            for c in t.children.borrow().iter() {
-                                inner.push(' ');
-                                dump_node(c, &mut inner);
-                            }
-                            out.push_str(&inner);
-                            out.push(')');
+                            tmpl = Some(t.clone());
                         }
                     },
                 }
@@ -64,6 +60,13 @@ pub fn dump_node(h: &Handle, out: &mut String) {
                 let ch = h.children.borrow();
                 for c in ch.iter().rev() {
                     stack.push(W::Open(c.clone()));
+                }
+                if let Some(t) = tmpl {
+                    // the contents come first: "(el .. (tmpl c1 c2) child1 ..)"
+                    stack.push(W::Close);
+                    for c in t.children.borrow().iter().rev() {
+                        stack.push(W::Open(c.clone()));
+                    }
                 }
                 if !ch.is_empty() {
                     // children separated by a space
